@@ -84,8 +84,16 @@ def reference(ctx, inp, Ct, St, Mt, Pt):
     return st, census
 
 
-def run_perm(mod, ctx, fn, ncell, atoms):
+def run_perm(mod, ctx, fn, ncell, atoms, by_matrix_spec=False):
     summ, _ = contracts.wrapper_summaries(mod, ctx)
+    if by_matrix_spec:
+        # a matrix kernel whose body wrapper mode cannot follow (raw integer arithmetic on lane values) is replaced by its
+        # matrix specification; that specification is discharged for every kernel by the family checks this property runs
+        from .. import matcheck
+        from . import c13, c14
+        for pat in (c13.PAT, c14.PAT):
+            for k_, v_ in matcheck.matrix_summaries(mod, pat).items():
+                summ.setdefault(k_, v_)
     name = mod.find(SIG % fn)
 
     def pre(I, ps):
@@ -146,7 +154,13 @@ def check_cfg(rep, cfg, shared):
     for fn, nc in impls:
         try:
             if nc == 12:
-                out, eff, stray, name = run_perm(mod, ctx, fn, 12, atoms)
+                try:
+                    out, eff, stray, name = run_perm(mod, ctx, fn, 12, atoms)
+                except Incomplete as e0:
+                    if 'outside a contracted kernel' not in str(e0):
+                        raise
+                    ctx.violations.clear()
+                    out, eff, stray, name = run_perm(mod, ctx, fn, 12, atoms, by_matrix_spec=True)
                 results[fn] = out
                 states = [out]
             else:
@@ -154,7 +168,13 @@ def check_cfg(rep, cfg, shared):
                 for w in (0, 1):
                     for i in range(12):
                         at[lane_map(i, w)] = ('x%d' % i) if w == 0 else ('y%d' % i)
-                out, eff, stray, name = run_perm(mod, ctx, fn, 24, at)
+                try:
+                    out, eff, stray, name = run_perm(mod, ctx, fn, 24, at)
+                except Incomplete as e0:
+                    if 'outside a contracted kernel' not in str(e0):
+                        raise
+                    ctx.violations.clear()
+                    out, eff, stray, name = run_perm(mod, ctx, fn, 24, at, by_matrix_spec=True)
                 sa = [out[lane_map(i, 0)] for i in range(12)]
                 sb = [out[lane_map(i, 1)].subst({'y%d' % i: Poly.var('x%d' % i) for i in range(12)}) if False else out[lane_map(i, 1)] for i in range(12)]
                 states = [sa, sb]
